@@ -44,6 +44,8 @@ GO_OPS = {
 }
 MIRROR = {"LSS": "GTR", "GTR": "LSS", "LEQ": "GEQ", "GEQ": "LEQ", "EQL": "EQL", "NEQ": "NEQ"}
 KINDS = ["Line", "Type.Size", "Value.Int()", "Text"]
+DETACHED = {"mem": "exists in memory only (no file at the path the FileSet names)",
+            "stale": "the file on disk is an older, shorter version of the analysed source"}
 
 
 def value_of(site, kind, var):
@@ -135,7 +137,11 @@ def run(c):
 
         def site_desc(i, j):
             s = sites[(i, j)]
-            return {"site": i, "x": s["text_x"], "y": s["text_y"], "line_x": s["line_x"], "line_y": s["line_y"]}
+            d = {"site": i, "x": s["text_x"], "y": s["text_y"], "line_x": s["line_x"], "line_y": s["line_y"]}
+            if s["target"] != "disk":
+                # x / y: the captures' Text as the engine reports it in a message; the file is not (fully) readable from disk
+                d.update({"file": DETACHED[s["target"]], "x_as_written": s["src_x"], "y_as_written": s["src_y"]})
+            return d
 
         # ---------------------------------------------------------------- atoms: sanity of the measurement
         for a in atoms:
@@ -308,10 +314,19 @@ def run(c):
                     c.obligation("harness-sanity:shared-spelling", False, "members of %s are not spelled identically: %r" % (fam, sorted(spell)))
                 if len({json.dumps(r["values"], sort_keys=True) for r in members}) > 1:
                     c.nontriv(("shared-spelling", fam, members[0]["src"]))
-                others = lambda r: [{"group": "g%d" % o["idx"], "file": o["file_no"], "constants": o["values"]} for o in members if o is not r]
+                others = lambda r: [{"group": "g%d" % o["idx"], "file": o["file_no"], "constants": o["values"]}
+                                    for o in members if o is not r and not o.get("left_out")]
                 for r in members:
                     j = r["j"]
                     al = r["alone"]
+                    if r.get("left_out"):
+                        # a literal of the macro body is spelled in a way the engine does not take (not a decimal number, not
+                        # a plainly quoted string): refusing the group is fine, giving the literal another value is not
+                        c.nontriv(("literal-spelling-refused", r["locals"]))
+                        c.coverage["macro_literal_spellings_refused"] = c.coverage.get("macro_literal_spellings_refused", 0) + 1
+                        continue
+                    if r.get("may_refuse"):
+                        c.coverage["macro_literal_spellings_loaded"] = c.coverage.get("macro_literal_spellings_loaded", 0) + 1
                     if not clean(r) or al.get("load_err") or al.get("panic"):
                         c.fail("oracle", "a panic-free filter over named constants panics or is refused", input=inp(r, {"loaded_with": others(r)}),
                                observed={"together": r.get("panic") or r.get("load_err"), "alone": al.get("panic") or al.get("load_err")})
@@ -428,7 +443,7 @@ def run(c):
         NSH = 14
         jobs = []
         for k in range(NSH):
-            part = rules[k::NSH]
+            part = [r for r in rules if not r.get("left_out")][k::NSH]
             src = ["From Coq Require Import List ZArith Bool String.", "From RG.Base Require Import Outcome.",
                    "From RG.Filters Require Import FilterIR FilterAlgebra.", "From RGW Require Import Gen_FilterTables Sites_%s." % tag,
                    "Import ListNotations. Local Open Scope string_scope.",
